@@ -158,9 +158,13 @@ Proof.
   exists (1, 0, 0), (0, 1, 0). unfold is_unit, v3norm2, v3dot. cbn [nadd nmul Rops]. repeat split; try ring.
   unfold uv_rgrad, uv_grad, v3scale, v3dot. cbn [nadd nmul nsub ndiv nneg nacos nsqrt nofZ n0 n1 nltb Rops].
   replace (0 * 1 + 1 * 0 + 0 * 0) with 0 by ring. replace (1 * 0 + 0 * 1 + 0 * 0) with 0 by ring.
-  replace (Rltb 0 0) with false by (symmetry; apply Rltb_false; lra). cbn [andb].
+  replace (1 - 0 * 0) with 1 by ring.
+  assert (Ht : tiny28 Rops < 1).
+  { unfold tiny28; cbn. apply Rmult_lt_reg_r with (100000000000000 * 100000000000000); [lra|].
+    unfold Rdiv. rewrite Rmult_assoc, Rinv_l by lra. lra. }
+  replace (Rltb 1 (tiny28 Rops)) with false by (symmetry; apply Rltb_false; lra).
   intros E. injection E as E1 E2 E3.
-  replace (1 - 0 * 0) with 1 in E1 by ring. rewrite sqrt_1, acos_0 in E1.
+  rewrite sqrt_1, acos_0 in E1.
   pose proof PI_RGT_0. lra.
 Qed.
 
